@@ -4,7 +4,8 @@ import AlgoVerif.Spec.C07
 /-!
 Line-protocol component for C07.
 
-Header: `comp=<algo> cmp=<asc|desc|mod3>`.  Comparison-sort elements are `key:id` (the comparator
+Header: `comp=<algo> cmp=<asc|desc|mod3|diff|diff7|rdiff|rdiff7|mod3x5>` (the last five return
+un-normalised values: `a-b`, `7*(a-b)`, `b-a`, `7*(b-a)`, `5*(a%3-b%3)`).  Comparison-sort elements are `key:id` (the comparator
 looks at the key only, so instability and permutation errors are visible in the output).
 Machine words are decimal (`int`: signed), strings are `x<hex>`.
 
@@ -25,11 +26,17 @@ def sgn (a b : Int) : Int := if a < b then -1 else if a > b then 1 else 0
 
 /-- Go's `%` truncates towards zero -/
 def cls (name : String) (k : Int) : Int :=
-  if name == "mod3" then Int.tmod k 3 else k
+  if name == "mod3" || name == "mod3x5" then Int.tmod k 3 else k
 
 def cmpOf (name : String) : Elem → Elem → Int :=
   if name == "desc" then fun a b => sgn b.1 a.1
   else if name == "mod3" then fun a b => sgn (Int.tmod a.1 3) (Int.tmod b.1 3)
+  -- comparators whose results are not normalised to -1/0/+1 (only the sign is meaningful)
+  else if name == "diff" then fun a b => a.1 - b.1
+  else if name == "diff7" then fun a b => 7 * (a.1 - b.1)
+  else if name == "rdiff" then fun a b => b.1 - a.1
+  else if name == "rdiff7" then fun a b => 7 * (b.1 - a.1)
+  else if name == "mod3x5" then fun a b => (Int.tmod a.1 3 - Int.tmod b.1 3) * 5
   else fun a b => sgn a.1 b.1
 
 def parseElem (s : String) : Option Elem :=
